@@ -16,6 +16,12 @@ theorem fifo_not_lifo : ¬ Alloc.fifo.Lifo := by
   have := h [5] 7
   simp [Alloc.fifo] at this
 
+/-- The only instance of the LIFO hypothesis the fully stocked event queues need: with *no* other
+    free descriptor, the descriptor just freed is the one handed out next. -/
+def Alloc.Refill (A : Alloc) : Prop := ∀ t, A.take (A.give [] t) = some (t, [])
+
+theorem Alloc.Lifo.refill {A : Alloc} (h : A.Lifo) : A.Refill := fun t => h [] t
+
 /-- nothing outstanding, and the next `add` will hand out token 0 leaving `rest` -/
 structure QIdle (A : Alloc) (n : Nat) (q : AQ) : Prop where
   size : q.size = n
